@@ -1260,16 +1260,24 @@ class PendingImport(PendingNode[Import]):
             else:
                 asname = _alias.name
 
-            result.append(
-                self.nsp.get_assign(
-                    asname,
-                    Call(
-                        func=import_func,
-                        args=[Constant(value=_alias.name)],
-                        keywords=[],
-                    ),
-                )
+            value: expr = Call(
+                func=import_func,
+                args=[Constant(value=_alias.name)],
+                keywords=[],
             )
+            if _alias.asname is not None and "." in _alias.name:
+                # `import a.b as c` binds the attribute `b` of the package `a`,
+                # which is not always the module `a.b`
+                # (`import unittest.main as m` binds a class)
+                value = Call(
+                    func=Name(id="__import__", ctx=Load()),
+                    args=[Constant(value=_alias.name)],
+                    keywords=[],
+                )
+                for attr in _alias.name.split(".")[1:]:
+                    value = Attribute(value=value, attr=attr, ctx=Load())
+
+            result.append(self.nsp.get_assign(asname, value))
 
         return result
 
